@@ -151,3 +151,36 @@ Definition wfp (s : pst) : Prop :=
 Inductive preach : pst -> Prop :=
 | preach0 : preach pst0
 | preachS s o s' : preach s -> pstep s o = Some s' -> preach s'.
+
+(* ---- serve-loop entry points (live connection) ----
+   processHeaders on a new stream = create the stream object, insert it, and if the HEADERS frame carries the
+   PRIORITY flag call adjustStreamPriority(sc.streams, id, f.Priority); processPriority = adjustStreamPriority;
+   RST_STREAM from the client = closeStream = delete from sc.streams. *)
+Inductive lop :=
+| LHeaders (id : Z) (prio : bool) (dep w : Z) (excl : bool)
+| LPrio (id dep w : Z) (excl : bool)
+| LReset (id : Z).
+Definition lexpand (o : lop) : list pop :=
+  match o with
+  | LHeaders id prio dep w excl => PNew id :: (if prio then [PAdj id dep w excl] else [])
+  | LPrio id dep w excl => [PAdj id dep w excl]
+  | LReset id => [PClose id]
+  end.
+Fixpoint psteps (s : pst) (ops : list pop) {struct ops} : option pst :=
+  match ops with
+  | [] => Some s
+  | o :: r => match pstep s o with Some s' => psteps s' r | None => None end
+  end.
+(* the table after every frame of the script *)
+Fixpoint lrun (s : pst) (ops : list lop) {struct ops} : option (list (list (Z * Z * Z * Z))) :=
+  match ops with
+  | [] => Some []
+  | o :: r =>
+    match psteps s (lexpand o) with
+    | None => None
+    | Some s' => match lrun s' r with
+                 | None => None
+                 | Some ts => Some (table s' :: ts)
+                 end
+    end
+  end.
